@@ -250,6 +250,78 @@ EW = {
     np.sin: _np1(np.sin), np.cos: _np1(np.cos), np.tan: _np1(np.tan), np.radians: _np1(np.radians),
     np.deg2rad: _np1(np.deg2rad), np.arctan: _np1(np.arctan), np.tanh: _np1(np.tanh),
 }
+
+
+def _np2(uf):
+    def f(a, b):
+        if is_sym(a) or is_sym(b):
+            raise SymUnsupported('%s of a symbolic value (no decision procedure)' % uf.__name__)
+        with np.errstate(all='ignore'):
+            return float(uf(np.float64(a), np.float64(b)))
+    return f
+
+
+def _trunc(a):
+    return float(S.sym_trunc(a)) if is_sym(a) else float(math.trunc(a))
+
+
+def _rint(a):
+    # round half to even: forks over the feasible integers like floor/ceil
+    if not is_sym(a):
+        return float(np.rint(a))
+    f = S.sym_floor(a)
+    d = a - f
+    if bool(d < 0.5):
+        return float(f)
+    if bool(d > 0.5):
+        return float(f) + 1.0
+    return float(f) if int(f) % 2 == 0 else float(f) + 1.0
+
+
+def _floordiv(a, b):
+    if is_sym(a) or is_sym(b):
+        return _floor(_div(a, b))
+    return float(np.floor_divide(a, b)) if isinstance(a, float) or isinstance(b, float) else int(np.floor_divide(a, b))
+
+
+def _hypot(a, b):
+    return _sqrt(a * a + b * b)
+
+
+def _lxor(a, b):
+    a, b = _tb(a), _tb(b)
+    return S.sym_or(S.sym_and(a, S.sym_not(b)), S.sym_and(S.sym_not(a), b))
+
+
+def _signbit(a):
+    return (a < 0) if is_sym(a) else bool(np.signbit(a))
+
+
+def _heaviside(a, h):
+    if is_sym(a):
+        return S.sym_if(a > 0, 1.0, S.sym_if(a < 0, 0.0, h))
+    return float(np.heaviside(a, h)) if not is_sym(h) else (1.0 if a > 0 else (0.0 if a < 0 else h))
+
+
+def _copysign(a, b):
+    if is_sym(a) or is_sym(b):
+        return S.sym_if(b >= 0, _abs(a), -_abs(a))
+    return float(np.copysign(a, b))
+
+
+def _isinf(a):
+    return False if is_sym(a) else bool(np.isinf(a))
+
+
+EW.update({
+    np.fabs: _abs, np.trunc: _trunc, np.rint: _rint, np.floor_divide: _floordiv, np.hypot: _hypot,
+    np.float_power: _pow, np.logical_xor: _lxor, np.signbit: _signbit, np.heaviside: _heaviside,
+    np.copysign: _copysign, np.isinf: _isinf, np.cbrt: lambda a: (a ** (1.0 / 3.0)) if is_sym(a) else float(np.cbrt(a)),
+    np.remainder: _mod, np.fmod: _np2(np.fmod), np.arctan2: _np2(np.arctan2),
+    np.sinh: _np1(np.sinh), np.cosh: _np1(np.cosh), np.arcsin: _np1(np.arcsin), np.arccos: _np1(np.arccos),
+    np.expm1: _np1(np.expm1), np.log1p: _np1(np.log1p), np.exp2: _np1(np.exp2), np.degrees: _np1(np.degrees),
+    np.rad2deg: _np1(np.rad2deg), np.arcsinh: _np1(np.arcsinh), np.arctanh: _np1(np.arctanh),
+})
 try:
     EW[np.clip] = _clip
     from numpy._core import umath as _um          # np.clip(a, lo, hi) with both bounds dispatches to this ufunc
